@@ -43,7 +43,13 @@ RULE = ("history = 1-4 stations (EVSE / DeadbandEVSE / FiniteRatesEVSE), back-to
         "timestamp, RecomputeEvents before/between/after the sessions, untyped base Events, max_recompute in {None,1,2,3}, "
         "store_schedule_history on/off, scripted / UncontrolledCharging / sorted schedulers, the interruption an Exception, "
         "a BaseException subclass or KeyboardInterrupt, the loaded simulator given a fresh scheduler / the same scheduler "
-        "object / one registered with another simulator, shuffled event insertion "
+        "object / one registered with another simulator; station ids whose sort order differs from registration order, "
+        "mixed-case, numeric-looking and empty ids; periods 0.5/2.5/7; non-default tolerances; signals; scheduler output as "
+        "ints / numpy scalars / numpy arrays; numpy timestamps; a scheduler that overwrites the lists it returned; dumps "
+        "through string / path / buffer; per history: dump of the completed and of the not yet started simulator, a chain "
+        "of interruptions, a sibling simulator run between the two continuations, a second load of the same dump, events "
+        "added and a constraint changed at the interruption (in place vs loaded), for two histories a load in a second "
+        "process with another PYTHONHASHSEED; shuffled event insertion "
         "order; one case per (history, scheduler call k at which the scheduler raises); the corpus witnesses first; a "
         "small share of histories belongs to the known-finding class (zero-stay session); "
         "non-trivial = distinct (history, k)")
@@ -114,14 +120,14 @@ def gen_history(rng, special=None, big=False):
                 dep = max(t + 1, tie_time if tie_time > t else dep)     # unplug ties across stations
             r = rng.random()
             cap = rng.choice([5, 10, 20, 40])
-            init = rng.choice([0, 0, cap * 0.5, cap * 0.9])
+            init = rng.choice([0, 0, cap * 0.5, cap * 0.9, cap])
             maxp = rng.choice([3.3, 6.6, 7.0, 10])
             if r < 0.45:
                 batt = ["B", cap, init, maxp]
             else:
-                batt = ["L2", cap, init, maxp, rng.choice([0, 0, 0.2]), rng.choice([0.8, 0.5, 0.9]),
+                batt = ["L2", cap, init, maxp, rng.choice([0, 0, 0.2]), rng.choice([0.8, 0.5, 0.9, 0, 0.0]),
                         rng.choice(["continuous", "stepwise"])]
-            energy = rng.choice([0.5, 1, 2, 4, 8, 0.01])
+            energy = rng.choice([0.5, 1, 2, 4, 8, 0.01, 0])
             sessions.append(dict(station=i, arrival=t, departure=dep, energy=energy, battery=batt,
                                  est_departure=rng.choice([None, dep, dep + 1])))
             if rng.random() < 0.45:
@@ -156,11 +162,58 @@ def gen_history(rng, special=None, big=False):
     order = list(range(len(sessions) + len(extra)))
     rng.shuffle(order)
     h = dict(stations=stations, sessions=sessions, extra=extra, mr=mr, sched=sched, order=order,
-             store_hist=rng.random() < 0.5, period=rng.choice([1, 5]), script_seed=rng.randint(0, 10**6),
+             store_hist=rng.random() < 0.5, period=rng.choice([1, 5, 5, 7, 0.5, 2.5]), script_seed=rng.randint(0, 10**6),
              np_seed=rng.randint(0, 10**6), constraint=rng.choice([None, None, 60, 1000]), special=special,
              start=[rng.choice([2019, 2020, 2021]), rng.randint(1, 12), rng.randint(1, 12), rng.randint(0, 23),
                     rng.randint(0, 59), rng.randint(0, 59), rng.choice([0, 0, 250000, 123456])])
+    # ids, tolerances, signals, dtypes (checklist items 4, 6, 8, 3)
+    if rng.random() < 0.4:
+        h["station_ids"] = rng.choice(STATION_ID_SCHEMES[1:])[:n_st] if n_st <= 6 else None
+    if rng.random() < 0.3:
+        h["session_ids"] = rng.choice(SESSION_ID_SCHEMES[1:])
+    if rng.random() < 0.3:
+        h["tols"] = rng.choice([[0, 0], [1e-3, 0.0], [0.5, 1e-2], [1e-9, 1e-12]])
+    if rng.random() < 0.25:
+        h["signals"] = rng.choice([{"tariff": [0.1, 0.25, 3]}, {"a": {"b": None}, "n": 0}, {}, []])
+    if sched[0] == "scripted":
+        h["sched_dtype"] = rng.choice([0, 0, 1, 2, 3, 4])
+        if rng.random() < 0.15 and not special:
+            h["mutating_sched"] = True
+            h["sched_dtype"] = 0
+            h["store_hist"] = False       # schedule_history keeps references to the scheduler's own lists
+    if rng.random() < 0.2:
+        h["np_times"] = True
     return h
+
+
+STATION_ID_SCHEMES = [
+    None,                                             # S0, S1, ...
+    ["S-9", "S-10", "S-11", "S-8", "S-100", "S-2"],   # lexicographic order != registration order
+    ["b", "A", "a", "B", "c", "C"],                   # mixed case
+    ["10", "9", "08", "7", "100", "1e1"],             # numeric looking
+    ["x", "", "0", "X", " ", "None"],                 # falsy / odd strings
+]
+SESSION_ID_SCHEMES = [None, "rev-numeric", "mixed", "falsy"]
+
+
+def st_id(h, i):
+    ids = h.get("station_ids")
+    return ids[i] if ids else "S%d" % i
+
+
+def se_id(h, n):
+    sch = h.get("session_ids")
+    if sch == "rev-numeric":
+        return "%d" % (30 - n)
+    if sch == "mixed":
+        return ("Sess-%d" if n % 2 else "sess-%d") % (11 - n)
+    if sch == "falsy":
+        return ["", "0", "None"][n] if n < 3 else "s%d" % n
+    return "s%d" % n
+
+
+_SESS = {}      # session id -> session number of the history being run
+SKIPPED = []    # why reference runs were unusable (the reference run itself raised)
 
 
 def allowable(kind):
@@ -179,7 +232,18 @@ def script(h, t):
     out = {}
     for i, st in enumerate(h["stations"]):
         if r.random() < 0.8:
-            out["S%d" % i] = [r.choice(allowable(st["kind"])) for _ in range(length)]
+            out[st_id(h, i)] = [r.choice(allowable(st["kind"])) for _ in range(length)]
+    # dtype variants of the scheduler output: python numbers, ints where possible, numpy scalars, numpy arrays
+    dt = h.get("sched_dtype", 0)
+    if dt == 1:
+        out = {k: [int(x) if float(x).is_integer() else x for x in v] for k, v in out.items()}
+    elif dt == 2:
+        out = {k: [np.float64(x) for x in v] for k, v in out.items()}
+    elif dt == 3:
+        out = {k: np.array(v, dtype=float) for k, v in out.items()}
+    elif dt == 4:
+        out = {k: (np.array(v) if j % 2 else [np.int64(x) if float(x).is_integer() else x for x in v])
+               for j, (k, v) in enumerate(out.items())}
     return out
 
 
@@ -193,7 +257,14 @@ def make_scheduler(h):
     if s[0] == "scripted":
         class Scripted(BaseAlgorithm):
             def run(self_inner):
-                return script(h, self_inner.interface.current_time)
+                if h.get("mutating_sched"):
+                    # the scheduler owns the objects it returned: it overwrites them at its next call
+                    for v in getattr(self_inner, "_prev", {}).values():
+                        for j in range(len(v)):
+                            v[j] = 99.0
+                out = script(h, self_inner.interface.current_time)
+                self_inner._prev = out
+                return out
         a = Scripted()
         a.max_recompute = h["mr"]
         return a
@@ -254,44 +325,48 @@ def make_evse(i, st):
     from acnportal.acnsim.models import EVSE, DeadbandEVSE, FiniteRatesEVSE
     k = st["kind"]
     if k[0] == "C":
-        return EVSE("S%d" % i, max_rate=k[2], min_rate=k[1])
+        return EVSE(st["id"], max_rate=k[2], min_rate=k[1])
     if k[0] == "D":
-        return DeadbandEVSE("S%d" % i, deadband_end=k[1], max_rate=k[2])
-    return FiniteRatesEVSE("S%d" % i, list(k[1]))
+        return DeadbandEVSE(st["id"], deadband_end=k[1], max_rate=k[2])
+    return FiniteRatesEVSE(st["id"], list(k[1]))
 
 
 def make_events(h):
     from acnportal.acnsim import PluginEvent, RecomputeEvent, Event
     from acnportal.acnsim.models import EV, Battery, Linear2StageBattery
     evs = []
+    _SESS.clear()
+    npt = (lambda x: np.int64(x)) if h.get("np_times") else (lambda x: x)
     for n, s in enumerate(h["sessions"]):
+        _SESS[se_id(h, n)] = n
         b = s["battery"]
         if b[0] == "B":
             batt = Battery(b[1], b[2], b[3])
         else:
             batt = Linear2StageBattery(b[1], b[2], b[3], noise_level=b[4], transition_soc=b[5], charge_calculation=b[6])
-        ev = EV(s["arrival"], s["departure"], s["energy"], "S%d" % s["station"], "s%d" % n, batt,
-                estimated_departure=s["est_departure"])
-        evs.append(PluginEvent(s["arrival"], ev))
+        ev = EV(npt(s["arrival"]), npt(s["departure"]), np.float64(s["energy"]) if h.get("np_times") else s["energy"],
+                st_id(h, s["station"]), se_id(h, n), batt, estimated_departure=s["est_departure"])
+        evs.append(PluginEvent(npt(s["arrival"]), ev))
     for cls, t in h["extra"]:
-        evs.append(RecomputeEvent(t) if cls == "RecomputeEvent" else Event(t))
+        evs.append(RecomputeEvent(npt(t)) if cls == "RecomputeEvent" else Event(npt(t)))
     return [evs[i] for i in h["order"]]
 
 
 def build(h, scheduler):
     from acnportal.acnsim import Simulator, ChargingNetwork, EventQueue, Current
-    net = ChargingNetwork()
+    tols = h.get("tols")
+    net = ChargingNetwork(*tols) if tols else ChargingNetwork()
     for i, st in enumerate(h["stations"]):
-        net.register_evse(make_evse(i, st), st["voltage"], 0)
+        net.register_evse(make_evse(i, dict(st, id=st_id(h, i))), st["voltage"], 0)
     if h["constraint"]:
-        net.add_constraint(Current(["S%d" % i for i in range(len(h["stations"]))]), h["constraint"], name="C0")
+        net.add_constraint(Current([st_id(h, i) for i in range(len(h["stations"]))]), h["constraint"], name="C0")
     return Simulator(net, scheduler, EventQueue(make_events(h)), datetime.datetime(*h.get("start", [2020, 1, 1])),
-                     period=h["period"],
+                     period=h["period"], signals=h.get("signals"),
                      store_schedule_history=h["store_hist"], verbose=False)
 
 
 def sess_no(ev_or_none):
-    return int(ev_or_none.session_id[1:]) if ev_or_none is not None else -1
+    return _SESS.get(ev_or_none.session_id, 99) if ev_or_none is not None else -1
 
 
 def ev_triple(e):
@@ -308,7 +383,7 @@ def observe(sim, calls):
                 last=None if sim._last_schedule_update is None else int(sim._last_schedule_update),
                 queue=[[e.event_type, int(ts), sess_no(getattr(e, "ev", None))] for ts, e in sim.event_queue._queue],
                 ehist=[ev_triple(e) for e in sim.event_history],
-                evh=[int(k[1:]) for k in sim.ev_history.keys()], occ=occ, calls=list(calls))
+                evh=[_SESS.get(k, 99) for k in sim.ev_history.keys()], occ=occ, calls=list(calls))
 
 
 def norm(v):
@@ -324,7 +399,7 @@ def norm(v):
         f = float(v)
         return repr(f)
     if isinstance(v, np.ndarray):
-        return [list(v.shape)] + [norm(x) for x in v.tolist()]
+        return [norm(x) for x in v.tolist()]
     if isinstance(v, dict):
         return [["%s:%s" % (type(k).__name__, k), norm(x)] for k, x in v.items()]
     if isinstance(v, (list, tuple)):
@@ -496,7 +571,142 @@ def run_chain_impl(h, ref_ncalls):
         return [ks, via_json], "chain of interruptions raised %s: %s" % (type(e).__name__, e)
 
 
-def run_history(h):
+def dump_load(sim, mode):
+    """to_json / from_json through the three documented channels: 0 string, 1 file path, 2 file-like buffer"""
+    import io
+    import tempfile
+    from acnportal.acnsim import Simulator
+    if mode == 1:
+        d = tempfile.mkdtemp(prefix="c09_")
+        path = os.path.join(d, "sim.json")
+        try:
+            sim.to_json(path)
+            with open(path) as f:
+                text = f.read()
+            return Simulator.from_json(path), text
+        finally:
+            try:
+                os.unlink(path)
+                os.rmdir(d)
+            except OSError:
+                pass
+    if mode == 2:
+        buf = io.StringIO()
+        sim.to_json(buf)
+        text = buf.getvalue()
+        buf.seek(0)
+        return Simulator.from_json(buf), text
+    text = sim.to_json()
+    return Simulator.from_json(text), text
+
+
+def state_diffs(nodes, nodes2):
+    diffs = []
+    if len(nodes) != len(nodes2):
+        diffs.append("%d objects dumped, %d loaded" % (len(nodes), len(nodes2)))
+    for a, (n1, n2) in enumerate(zip(nodes, nodes2)):
+        if n1[0] != n2[0] or n1[2] != n2[2]:
+            diffs.append("object %d: %s%s loaded as %s%s" % (a, n1[0], n1[2], n2[0], n2[2]))
+        elif n1[1] != n2[1]:
+            d = [(x[0], x[1], y[1]) for x, y in zip(n1[3], n2[3]) if x != y and x[0] != "scheduler"]
+            if d or len(n1[3]) != len(n2[3]):
+                diffs.append("%s object %d: attributes differ after load: %s" % (n1[0], a, str(d)[:300]))
+    return diffs[:5]
+
+
+def sibling(h):
+    """a simulation of the same shape with other values (other schedules, energies, noise)"""
+    h2 = dict(h, script_seed=h["script_seed"] + 1, np_seed=h["np_seed"] + 1)
+    h2["sessions"] = [dict(x, energy=x["energy"] * 0.5 + 0.25) for x in h["sessions"]]
+    return h2
+
+
+def plain_run(h):
+    np.random.seed(h["np_seed"])
+    sim = build(h, Crashing(make_scheduler(h), None, []))
+    sim.run()
+    return numeric(sim), sim
+
+
+def mutate_after_interruption(sim, h):
+    """what a user may do with an interrupted simulator before resuming it"""
+    from acnportal.acnsim import PluginEvent, RecomputeEvent, Current
+    from acnportal.acnsim.models import EV, Battery
+    last = max([x["departure"] for x in h["sessions"]] + [t for _, t in h["extra"]] + [sim._iteration])
+    sim.event_queue.add_event(RecomputeEvent(sim._iteration + 1))
+    n = len(h["sessions"])
+    _SESS["added-session"] = n
+    ev = EV(last + 1, last + 3, 2.5, st_id(h, 0), "added-session", Battery(20, 1, 6.6))
+    sim.event_queue.add_event(PluginEvent(last + 1, ev))
+    if h["constraint"]:
+        sim.network.update_constraint("C0", Current([st_id(h, i) for i in range(len(h["stations"]))]),
+                                      h["constraint"] * 0.5)
+
+
+def run_mutated_impl(h, k):
+    """interrupt at call k; add events / change a constraint; resume (a) in place and (b) after a JSON round trip:
+    both must end in the same state"""
+    try:
+        out = []
+        for via_json in (False, True):
+            np.random.seed(h["np_seed"])
+            wrap = Crashing(make_scheduler(h), k, [], exc_kind(h, k))
+            sim = build(h, wrap)
+            try:
+                sim.run()
+                return None
+            except INTERRUPTS:
+                pass
+            if via_json:
+                st = np.random.get_state()
+                sim, _ = dump_load(sim, 0)
+                np.random.set_state(st)
+                sim.update_scheduler(Crashing(make_scheduler(h), None, []))
+            mutate_after_interruption(sim, h)
+            sim.run()
+            out.append(numeric(sim))
+        d = first_diff(out[0], out[1])
+        return None if d is None else "interrupted at call %d, events added and constraint changed, resumed in place vs after a JSON round trip: %s differs" % (k, d)
+    except Exception as e:   # noqa
+        return "mutation after the interruption at call %d: %s: %s" % (k, type(e).__name__, e)
+
+
+def child_main(path):
+    """second process (another PYTHONHASHSEED): load the dumped simulator, give it a scheduler, run"""
+    with open(path) as f:
+        job = json.load(f)
+    from acnportal.acnsim import Simulator
+    h = job["history"]
+    make_events(h)          # fills the session numbering
+    sim = Simulator.from_json(job["text"])
+    sim.update_scheduler(Crashing(make_scheduler(h), None, []))
+    sim.run()
+    print("C09CHILD " + json.dumps(numeric(sim)))
+
+
+def run_in_second_process(h, text):
+    import subprocess
+    import tempfile
+    fd, path = tempfile.mkstemp(prefix="c09_", suffix=".json")
+    try:
+        with os.fdopen(fd, "w") as f:
+            json.dump(dict(history=h, text=text), f)
+        env = dict(os.environ, PYTHONHASHSEED="4711", PYTHONPATH="%s:%s" % (REPO, ROOT))
+        p = subprocess.run([sys.executable, "-m", "harness.c09", "--child", path], cwd=ROOT, env=env,
+                           stdout=subprocess.PIPE, stderr=subprocess.PIPE, text=True, timeout=120)
+        for line in p.stdout.split("\n"):
+            if line.startswith("C09CHILD "):
+                return json.loads(line[9:])
+        return "second process failed: " + (p.stderr.strip().split("\n") or [""])[-1][:300]
+    finally:
+        os.unlink(path)
+
+
+def has_noise(h):
+    return any(x["battery"][0] == "L2" and x["battery"][4] for x in h["sessions"])
+
+
+def run_history(h, second_process=False):
     """reference run + one record per crash point k.  Returns None if the history cannot be used
     (the reference run itself raises)."""
     from acnportal.acnsim import Simulator
@@ -505,22 +715,44 @@ def run_history(h):
     ref = build(h, Crashing(make_scheduler(h), None, ref_calls))
     try:
         ref.run()
-    except Exception:
+    except Exception as e:   # noqa
+        SKIPPED.append("%s: %s" % (type(e).__name__, str(e)[:120]))
         return None
     ref_obs, ref_num = observe(ref, ref_calls), numeric(ref)
     ncalls = len(ref_calls)
     recs = []
+    extras = {}
+    # a completed simulator survives a round trip as well (state, identity)
+    try:
+        nodes_ref, _ = graph_of(ref)
+        done, _ = dump_load(ref, h["script_seed"] % 3)
+        make_events(h)
+        nodes_done, _ = graph_of(done)
+        d = state_diffs(nodes_ref, nodes_done)
+        extras["completed"] = ("completed simulator after a round trip: " + "; ".join(d[:2] + identity_report(done)[:2])
+                               if d or identity_report(done) else None)
+    except Exception as e:   # noqa
+        extras["completed"] = "dump/load of the completed simulator raised %s: %s" % (type(e).__name__, e)
     chain_plan, chain_res = run_chain_impl(h, ncalls)
     # dump before the first run(): the loaded simulator must produce the reference run as well
     try:
         np.random.seed(h["np_seed"])
         fresh = build(h, Crashing(make_scheduler(h), None, []))
-        loaded = Simulator.from_json(fresh.to_json())
+        loaded, _ = dump_load(fresh, (h["script_seed"] + 1) % 3)
         loaded.update_scheduler(Crashing(make_scheduler(h), None, []))
         loaded.run()
         pre_res = numeric(loaded)
     except Exception as e:   # noqa
         pre_res = "dump before run(), load, run() raised %s: %s" % (type(e).__name__, e)
+    # one interruption point per history carries the additional scenario families
+    kx = (h["script_seed"] % ncalls) if ncalls else None
+    sib = sibling(h)
+    try:
+        sib_ref = plain_run(sib)[0]
+    except Exception:   # noqa
+        sib_ref = None
+    if kx is not None:
+        extras["mutated"] = run_mutated_impl(h, kx)
     for k in range(ncalls):
         np.random.seed(h["np_seed"])
         calls = []
@@ -534,25 +766,31 @@ def run_history(h):
             pass
         crash_obs = observe(sim, calls)
         rec = dict(k=k, ref=ref_obs, crash=crash_obs, raised=EXC_KINDS[exc_kind(h, k)].__name__)
-        # dump at the interruption point
+        problem = None
+        # dump at the interruption point; dumping must not change the simulator
         nodes, addr = graph_of(sim)
         registry = sim._to_registry()[0]
-        text = sim.to_json()
+        io_mode = (h["script_seed"] // 27 + k) % 3
+        try:
+            sim2, text = dump_load(sim, io_mode)
+        except Exception as e:   # noqa
+            sim2, text = None, None
+            problem = "to_json/from_json (%s) raised %s: %s" % (["string", "path", "buffer"][io_mode], type(e).__name__, e)
+        nodes_after, _ = graph_of(sim)
+        if [n[:3] for n in nodes_after] != [n[:3] for n in nodes]:
+            problem = (problem + "; " if problem else "") + "to_json changed the simulator it dumped"
         rec["graph"] = [n[:3] for n in nodes]
         rec["ctx"], rec["ctx_root"] = registry_view(registry, addr)
         rng_state = np.random.get_state()
-        # (i) run() again on the same object
-        problem = None
-        try:
+
+        def in_place():
+            np.random.set_state(rng_state)
             sim.run()
             rec["resumed"] = observe(sim, calls)
             rec["resumed_num"] = numeric(sim)
-        except Exception as e:   # noqa
-            problem = "run() after the interruption raised %s: %s" % (type(e).__name__, e)
-        # (ii) load, re-attach a scheduler, run
-        np.random.set_state(rng_state)
-        try:
-            sim2 = Simulator.from_json(text)
+
+        def after_load():
+            np.random.set_state(rng_state)
             calls2 = list(crash_obs["calls"])
             mode = attach_mode(h, k)
             if mode == 1:
@@ -571,22 +809,57 @@ def run_history(h):
             rec["identity"] = identity_report(sim2)
             nodes2, _ = graph_of(sim2)
             rec["graph2"] = [n[:3] for n in nodes2]
-            diffs = []
-            if len(nodes) != len(nodes2):
-                diffs.append("%d objects dumped, %d loaded" % (len(nodes), len(nodes2)))
-            for a, (n1, n2) in enumerate(zip(nodes, nodes2)):
-                if n1[0] != n2[0] or n1[2] != n2[2]:
-                    diffs.append("object %d: %s%s loaded as %s%s" % (a, n1[0], n1[2], n2[0], n2[2]))
-                elif n1[1] != n2[1]:
-                    d = [(x[0], x[1], y[1]) for x, y in zip(n1[3], n2[3]) if x != y and x[0] != "scheduler"]
-                    if d or len(n1[3]) != len(n2[3]):
-                        diffs.append("%s object %d: attributes differ after load: %s" % (n1[0], a, str(d)[:300]))
-            rec["state_diffs"] = diffs[:5]
+            rec["state_diffs"] = state_diffs(nodes, nodes2)
             sim2.run()
             rec["resumed_loaded"] = observe(sim2, calls2)
             rec["resumed_loaded_num"] = numeric(sim2)
-        except Exception as e:   # noqa
-            problem = (problem + "; " if problem else "") + "dump/load/run raised %s: %s" % (type(e).__name__, e)
+
+        # order of the two continuations alternates; with the same scheduler object the in-place one goes first
+        steps = [("run() after the interruption", in_place), ("dump/load/run", after_load)]
+        if (h["script_seed"] // 9 + k) % 2 and attach_mode(h, k) != 1:
+            steps.reverse()
+        rec["order"] = [n for n, _ in steps]
+        for idx, (name, fn) in enumerate(steps):
+            if name == "dump/load/run" and sim2 is None:
+                continue
+            try:
+                fn()
+            except Exception as e:   # noqa
+                problem = (problem + "; " if problem else "") + "%s raised %s: %s" % (name, type(e).__name__, e)
+            if idx == 0 and k == kx and sib_ref is not None:
+                # another simulator of the same shape runs completely between the two continuations
+                try:
+                    got = plain_run(sib)[0]
+                    make_events(h)
+                    d = first_diff(sib_ref, got)
+                    if d:
+                        extras["sibling"] = "a second simulator run while this one was interrupted: its %s differs from its run in isolation" % d
+                except Exception as e:   # noqa
+                    extras["sibling"] = "second simulator raised %s: %s" % (type(e).__name__, e)
+                    make_events(h)
+        if k == kx and text is not None:
+            # a second, independent load of the same dump
+            try:
+                np.random.set_state(rng_state)
+                sim3 = Simulator.from_json(text)
+                shared = {id(o) for o in _objects(sim2)} & {id(o) for o in _objects(sim3)} if sim2 is not None else set()
+                sim3.update_scheduler(Crashing(make_scheduler(h), None, []))
+                sim3.run()
+                d = first_diff(ref_num, numeric(sim3))
+                if shared:
+                    extras["second_load"] = "two loads of one dump share %d objects" % len(shared)
+                elif d:
+                    extras["second_load"] = "a second load of the same dump, run after the first: %s differs from the uninterrupted run" % d
+            except Exception as e:   # noqa
+                extras["second_load"] = "second load raised %s: %s" % (type(e).__name__, e)
+            if second_process and not has_noise(h):
+                got = run_in_second_process(h, text)
+                if isinstance(got, str):
+                    extras["process"] = got
+                else:
+                    d = first_diff(ref_num, got)
+                    if d:
+                        extras["process"] = "dump loaded and resumed in a second process (other PYTHONHASHSEED): %s differs from the uninterrupted run" % d
         rec["ref_num"] = ref_num
         if k == 0:
             rec["chain_plan"], rec["chain"] = chain_plan, chain_res
@@ -594,7 +867,22 @@ def run_history(h):
         if problem:
             rec["problem"] = problem
         recs.append(rec)
+    if recs:
+        recs[0]["extras"] = {a: b for a, b in extras.items() if b}
     return recs
+
+
+def _objects(root):
+    """all BaseSimObj objects reachable from root"""
+    seen, out, todo = set(), [], [root]
+    while todo:
+        o = todo.pop()
+        if id(o) in seen:
+            continue
+        seen.add(id(o))
+        out.append(o)
+        todo.extend(children(o))
+    return out
 
 
 # ---------------------------------------------------------------------------------------------
@@ -639,8 +927,8 @@ def history_sig(h):
     return hashlib.sha256(json.dumps(h, sort_keys=True).encode()).hexdigest()[:12]
 
 
-def cases_of_history(h):
-    recs = run_history(h)
+def cases_of_history(h, second_process=False):
+    recs = run_history(h, second_process)
     if recs is None:
         return None
     main, reg = [], []
@@ -655,7 +943,7 @@ def cases_of_history(h):
         complete = all(x in rec for x in ("resumed", "loaded", "resumed_loaded"))
         impl = {x: rec.get(x) for x in ("ref", "crash", "resumed", "loaded", "resumed_loaded", "identity",
                                         "state_diffs", "problem", "ref_num", "resumed_num", "resumed_loaded_num", "attach", "raised",
-                                        "chain_plan", "chain", "pre")}
+                                        "chain_plan", "chain", "pre", "extras", "order")}
         if complete:
             coq = ("{| c_events := %s; c_mr := %s; c_k := %d%%nat; c_fuel := %d%%nat;\n   i_ref := %s;\n   i_crash := %s;\n"
                    "   i_resumed := %s;\n   i_loaded := %s;\n   i_resumed_loaded := %s |}") % (
@@ -707,13 +995,15 @@ def gen_cases(rng, n, tier):
         _REG_CASES.extend(res[1])
     made = 0
     attempts = 0
+    skipped = 0
     while made < n and attempts < 20 * n:
         attempts += 1
         r = rng.random()
         special = "zero_stay" if r < 0.05 else "untyped" if r < 0.10 else None
         h = gen_history(rng, special, big=(tier == "thorough" and rng.random() < 0.15))
-        res = cases_of_history(h)
+        res = cases_of_history(h, second_process=(made < 2))
         if res is None or not res[0]:
+            skipped += 1
             continue
         made += 1
         cases.extend(res[0])
@@ -747,9 +1037,14 @@ def first_diff(a, b):
     return None
 
 
-def monitor(case):
+def monitor(case, include_known=False):
+    """the property on the implementation's recorded behaviour.  Cases of the open known-finding class
+    (zero-stay sessions) diverge on the unchanged code already; they are never offered as the failing input of
+    something else (include_known is used only when the known finding itself is replayed)."""
     i = case["impl"]
     if case["input"].get("stream") == "registry":
+        return None
+    if isinstance(case.get("sig"), str) and case["sig"].startswith("known:") and not include_known:
         return None
     if i.get("problem"):
         return i["problem"]
@@ -769,6 +1064,8 @@ def monitor(case):
         if d:
             return "interruptions at calls %s (JSON round trip: %s), each followed by run(): %s differs from the uninterrupted run" % (
                 i["chain_plan"][0], i["chain_plan"][1], d)
+    for name, msg in (i.get("extras") or {}).items():
+        return msg
     if i.get("pre") is not None:
         if isinstance(i["pre"], str):
             return i["pre"]
@@ -793,7 +1090,7 @@ def replay_case(inp):
         return "the reference run raises"
     for c in res[0]:
         if c["input"]["k"] == k:
-            return monitor(c)
+            return monitor(c, include_known=True)
     return None
 
 
@@ -840,3 +1137,8 @@ EXTRA_PROP_FILES = _open_finding_files()
 if EXTRA_PROP_FILES:
     # its dependencies must be rebuilt by make whenever Gen/ changes
     TARGETS = TARGETS + ["coq/Props/C09_findings.vo"]
+
+
+if __name__ == "__main__":
+    if len(sys.argv) == 3 and sys.argv[1] == "--child":
+        child_main(sys.argv[2])
